@@ -100,3 +100,6 @@ Definition names_ok (observed : list (string * list string)) : bool := eqb obser
 Definition calls_ok (observed : list (string * list string)) : bool := eqb observed pandas_calls.
 Definition check_syntax (cs : list (list (string * list string) * list (string * list string))) : list nat :=
   failing_idx (fun c => names_ok (fst c) && calls_ok (snd c)) cs.
+
+(* the premise of the theorems, evaluated on the pipelines the real builder accepted *)
+Definition check_wf (cs : list pcase) : list nat := failing_idx (fun c => wf_op_b (pc_pipeline c)) cs.
